@@ -264,10 +264,31 @@ def rule_R4(chk, fn, label):
     def is_size(e):
         e = C.strip_casts(e)
         return C.is_call(e, name="size") and "PhotonBuffer" in e.get("cls", "")
+    # const locals that hold a buffer size
+    size_locals = set()
+    for nd in g.nodes:
+        if nd.kind == "decl":
+            for d in nd.ast["d"]:
+                if d.get("init") is not None and is_size(d["init"]) and (d.get("t") or "").startswith("const "):
+                    size_locals.add(("local", d["id"], d["n"]))
+
+    def terms(e, sign=1):
+        """Signed size terms of a +/- tree; None if a leaf is not a buffer size."""
+        e = C.strip_casts(e)
+        if e.get("k") == "Bin" and e["op"] in ("+", "-"):
+            a2 = terms(e["a"], sign)
+            b2 = terms(e["b"], sign if e["op"] == "+" else -sign)
+            return None if a2 is None or b2 is None else a2 + b2
+        if is_size(e) or C.ref_key(e) in size_locals:
+            return [sign]
+        return None
     inits = [d for d in defs if d[0] == "init"]
     subs = [d for d in defs if d[0] == "-="]
     others = [d for d in defs if d[0] not in ("init", "-=")]
-    okk = len(inits) == 1 and is_size(inits[0][1]) and all(is_size(b) for _, b in subs) and not others and subs
+    it = terms(inits[0][1]) if len(inits) == 1 else None
+    nsub = len(subs) + (sum(1 for t in it if t < 0) if it else 0)
+    okk = it is not None and sum(1 for t in it if t > 0) == 1 and \
+        all(is_size(b) or C.ref_key(b) in size_locals for _, b in subs) and not others and nsub >= 1
     chk.require(okk, "R4", "%s: done = size(input) - sizes of the buffers holding packets for later work" % label,
                 where(add, fn), "the accumulator is defined by %s" %
                 [(op, C.pretty(b) if b else "") for op, b in defs], function=fn["full"], construct="done amount")
@@ -375,47 +396,87 @@ def rule_R5(chk, drv, label):
 
 
 def rule_R5_termination(chk, drv, label, inner):
-    """The run flag is cleared only when no buffer is in flight and done == requested."""
+    """The run flag is cleared only when no buffer is in flight and done == requested: the path condition of every
+    `flag = false` (conjunction of the enclosing if-conditions with their arm polarity) implies both atoms, decided by a
+    truth table over the atoms of those conditions."""
+    import itertools
     n = 0
-    flag_writes = []
-    for s in C.walk_stmt(drv["body"]):
-        if s.get("k") == "If":
-            for x in C.walk_stmt(s["th"]):
-                if x.get("k") == "Bin" and x["op"] == "=" and C.strip_casts(x["b"]).get("k") == "Bool" and \
-                        C.strip_casts(x["b"])["v"] is False and "run_flag" in (C.strip_casts(x["a"]).get("n") or ""):
-                    flag_writes.append((x, s))
-    # keep the innermost enclosing if for each write
-    by_write = {}
-    for x, s in flag_writes:
-        cur = by_write.get(id(x))
-        if cur is None or any(y is s for y in C.walk_stmt(cur[1]["th"])):
-            by_write[id(x)] = (x, s)
-    n += 1
-    okk = len(by_write) >= 1
-    detail = "no write of `false` to the run flag found"
-    for x, s in by_write.values():
-        conj = []
+    writes = []
 
-        def cj(e):
-            e = C.strip_casts(e)
-            if e.get("k") == "Bin" and e["op"] == "&&":
-                cj(e["a"])
-                cj(e["b"])
-            else:
-                conj.append(e)
-        cj(s["c"])
-        empty = [c for c in conj if C.is_call(c, name="is_empty")]
-        eq = [c for c in conj if c.get("k") == "Bin" and c["op"] == "==" and
-              any(C.is_call(y, name="value", cls="AtomicValue") for y in C.walk(c))]
-        if not (len(conj) == 2 and len(empty) == 1 and len(eq) == 1):
-            okk = False
-            detail = "the run flag is cleared under `%s`" % C.pretty(s["c"])
+    def walk(st, stack):
+        k = st.get("k")
+        if k == "Block":
+            for c2 in st.get("s", []):
+                walk(c2, stack)
+        elif k == "If":
+            if st.get("th") is not None:
+                walk(st["th"], stack + [(st["c"], True)])
+            if st.get("el") is not None:
+                walk(st["el"], stack + [(st["c"], False)])
+        elif k in ("For", "While", "Do", "OMP", "Captured", "ForRange"):
+            for key in ("body", "s"):
+                if isinstance(st.get(key), dict):
+                    walk(st[key], stack)
+                elif isinstance(st.get(key), list):
+                    for c2 in st[key]:
+                        walk(c2, stack)
+        elif k == "Bin" and st["op"] == "=" and C.strip_casts(st["b"]).get("k") == "Bool" and \
+                C.strip_casts(st["b"])["v"] is False and "run_flag" in (C.strip_casts(st["a"]).get("n") or ""):
+            writes.append((st, list(stack)))
         else:
-            other = eq[0]["b"] if any(C.is_call(y, name="value") for y in C.walk(eq[0]["a"])) else eq[0]["a"]
-            nm = C.pretty(other)
-            if "photon" not in nm.lower():
-                okk = False
-                detail = "the done-counter is compared with %s" % nm
+            for key in ("body", "th", "el", "sub"):
+                if isinstance(st.get(key), dict):
+                    walk(st[key], stack)
+    walk(drv["body"], [])
+    n += 1
+    okk = len(writes) >= 1
+    detail = "no write of `false` to the run flag found"
+    for x, stack in writes:
+        atoms = {}
+
+        def norm(e):
+            """(formula) with atoms registered; formula is a nested tuple."""
+            e = C.strip_casts(e)
+            k = e.get("k")
+            if k == "Un" and e["op"] == "!":
+                return ("not", norm(e["x"]))
+            if k == "Bin" and e["op"] in ("&&", "||"):
+                return ("and" if e["op"] == "&&" else "or", norm(e["a"]), norm(e["b"]))
+            if k == "Bin" and e["op"] in ("==", "!="):
+                key = "eq:" + " ~ ".join(sorted((C.pretty(e["a"]), C.pretty(e["b"]))))
+                atoms.setdefault(key, e)
+                return ("atom", key) if e["op"] == "==" else ("not", ("atom", key))
+            key = "b:" + C.pretty(e)
+            atoms.setdefault(key, e)
+            return ("atom", key)
+
+        def ev(f, val):
+            if f[0] == "atom":
+                return val[f[1]]
+            if f[0] == "not":
+                return not ev(f[1], val)
+            if f[0] == "and":
+                return ev(f[1], val) and ev(f[2], val)
+            return ev(f[1], val) or ev(f[2], val)
+        forms = [(norm(c), pol) for c, pol in stack]
+        empty_atoms = [k for k, e in atoms.items() if k.startswith("b:") and C.is_call(e, name="is_empty")]
+        done_atoms = [k for k, e in atoms.items() if k.startswith("eq:") and
+                      any(C.is_call(y, name="value", cls="AtomicValue") for y in C.walk(e)) and "photon" in k.lower()]
+        if len(empty_atoms) != 1 or len(done_atoms) != 1 or len(atoms) > 12:
+            okk = False
+            detail = "the run flag is cleared under `%s`: the tests `no buffer in flight` / `done == requested` were not " \
+                     "both found" % " and ".join(("" if pol else "not ") + C.pretty(c) for c, pol in stack[-2:])
+            continue
+        keys = sorted(atoms)
+        for bits in itertools.product((False, True), repeat=len(keys)):
+            val = dict(zip(keys, bits))
+            if all(ev(f, val) == pol for f, pol in forms):
+                if not (val[empty_atoms[0]] and val[done_atoms[0]]):
+                    okk = False
+                    detail = "the run flag can be cleared while %s: condition `%s`" % (
+                        "a buffer is still in flight" if not val[empty_atoms[0]] else "done != requested",
+                        " and ".join(("" if pol else "not ") + C.pretty(c)[:80] for c, pol in stack[-2:]))
+                    break
     chk.require(okk, "R5", "%s: the iteration ends only when no buffer is in flight and done == requested" % label,
                 where(inner, drv), detail, function=drv["full"], construct="termination condition")
     return n
